@@ -20,6 +20,7 @@ func init() {
 			"(D2) the verdict compares full 32-byte hashes; (D3) cache transparency, structural part: the hash lists written to the cache come only from the hashes decoded from this response (never filtered against the asked names, never carried over from an older cache entry), negative entries are nil lists; an expired entry is treated as absent. " +
 			"(D4) every call in CheckHost that passes the name on passes the lower-cased name, so safe-browsing and parental lookups hash the canonical spelling whether or not rule filtering is enabled. " +
 			"(D3, cont.) cache entries are written only after the exchange with the lookup service returned no error. " +
+			"(D2, cont.) a TXT string becomes a received hash only after its length was compared for equality with the hash size. " +
 			"Not decided: label enumeration (last four labels, ICANN suffix cut), malformed TXT handling, transparency over all lookup histories.",
 		RuleText:    "Backward provenance slices (interprocedural inside the package) with sha256.Sum256 as the sanitiser; constant slice bounds; comparison operand types.",
 		Assumptions: []string{"crypto/sha256, encoding/hex and miekg/dns SetQuestion behave as documented", "debug logging of the host name is not a disclosure to the lookup service"},
@@ -163,14 +164,15 @@ func runC19(c *Ctx) {
 		}
 		r.Check(full, "C19-D2", "verdict-compares-full-hashes", p.FnPos(fm), "the verdict compares complete 32-byte hashes", "findMatch no longer compares complete 32-byte hashes (a prefix collision would block a clean name)")
 		// processAnswer's verdict comes from findMatch on (asked, received)
-		pa := p.Fn("(*filtering/hashprefix.Checker).processAnswer")
+		pa := p.Fn("(*filtering/hashprefix.Checker).Check")
 		if pa != nil {
-			r.Check(len(core.CallsToDeep(pa, "filtering/hashprefix.findMatch")) > 0, "C19-D2", "verdict-from-findMatch", p.FnPos(pa), "processAnswer decides with findMatch", "processAnswer no longer decides with findMatch")
+			r.Check(len(core.CallsToDeep(pa, "filtering/hashprefix.findMatch")) > 0, "C19-D2", "verdict-from-findMatch", p.FnPos(pa), "Check (through processAnswer or itself) decides with findMatch", "the lookup no longer decides with findMatch")
 		}
 	}
 
 	c19Cache(c)
 	c19Normalised(c)
+	c19FullHashOnly(c)
 }
 
 // prefixSlice: v is x[:k] (low nil or 0) with constant k <= max over a
@@ -300,11 +302,67 @@ func c19Cache(c *Ctx) {
 // is case-sensitive.  Every host checker (safe browsing and parental included,
 // which do not depend on rule filtering being enabled) must therefore receive
 // the lower-cased name: in CheckHost no call receives the raw parameter.
-func c19Normalised(c *Ctx) {
+// c19FullHashOnly: D2 (cont.) — a TXT string of the answer becomes a received
+// hash only if it is a full hash: its length (or the length of what it decodes
+// to) was compared for equality with the hash size.  A string that is merely
+// long enough would be cut to a full hash by the copy and match a name whose
+// hash it starts with.
+func c19FullHashOnly(c *Ctx) {
+	p, r := c.P, c.R
+	fn := p.Fn("(*filtering/hashprefix.Checker).appendHashesFromTXT")
+	if fn == nil {
+		r.Undecided("C19-D2", "appendHashesFromTXT", "-", "anchor not found")
+		return
+	}
+	exact, nE := core.CondEdges(fn, func(at core.Atom) (bool, bool) {
+		if at.Op != token.EQL && at.Op != token.NEQ {
+			return false, false
+		}
+		call, ok := at.Base.(*ssa.Call)
+		if !ok {
+			return false, false
+		}
+		if b, isB := call.Common().Value.(*ssa.Builtin); !isB || b.Name() != "len" {
+			return false, false
+		}
+		k, isK := core.ConstInt(at.Other)
+		if !isK || (k != 64 && k != 32) {
+			return false, false
+		}
+		// 64 for the text, 32 for the decoded bytes
+		t := call.Common().Args[0].Type().Underlying()
+		if _, isStr := t.(*types.Basic); isStr && k != 64 {
+			return false, false
+		}
+		if _, isSl := t.(*types.Slice); isSl && k != 32 {
+			return false, false
+		}
+		return true, at.Op == token.EQL
+	})
+	isCopy := func(in ssa.Instruction) bool {
+		call, ok := in.(*ssa.Call)
+		if !ok {
+			return false
+		}
+		b, isB := call.Common().Value.(*ssa.Builtin)
+		return isB && b.Name() == "copy"
+	}
+	off, ns := core.UnguardedSinks(fn, isCopy, exact)
+	r.Check(nE > 0 && ns > 0 && len(off) == 0, "C19-D2", "only-full-length-strings-become-hashes", p.FnPos(fn),
+		"a TXT string is turned into a hash only after its length was found equal to the hash size",
+		"a TXT string can be turned into a hash without its length having been compared for equality with the hash size: a longer string is cut to 32 bytes and blocks the name whose hash it starts with", traceOf(p, off)...)
+}
+
+func c19Normalised(c *Ctx) { checkersGetLowerCasedName(c, "C19-D4") }
+
+// checkersGetLowerCasedName: every checker CheckHost hands the name to receives the lower-cased name (shared by
+// C19-D4, where a mixed-case name would be hashed differently, and C01, where it would slip past the blocked
+// services, safe browsing and parental checks whose rules are matched in lower case).
+func checkersGetLowerCasedName(c *Ctx, rule string) {
 	p, r := c.P, c.R
 	fn := p.Fn("(*filtering.DNSFilter).CheckHost")
 	if fn == nil || len(fn.Params) < 2 {
-		r.Undecided("C19-D4", "CheckHost", "-", "anchor not found")
+		r.Undecided(rule, "CheckHost", "-", "anchor not found")
 		return
 	}
 	host := fn.Params[1]
@@ -344,7 +402,7 @@ func c19Normalised(c *Ctx) {
 		}
 	}
 	sort.Strings(bad)
-	r.Check(n >= 2 && len(bad) == 0, "C19-D4", "checkers-get-lower-cased-name", p.FnPos(fn),
+	r.Check(n >= 2 && len(bad) == 0, rule, "checkers-get-lower-cased-name", p.FnPos(fn),
 		fmt.Sprintf("all %d calls that pass the name on in CheckHost pass the lower-cased name", n),
 		"a checker can receive the name in the client's spelling: a mixed-case query for a listed name is hashed differently (other prefixes are sent, the verdict is 'not listed', and that is cached)", bad...)
 }
